@@ -697,7 +697,9 @@ def _deserialize_value(value: object, type_hint: object, ipc_validation: IpcVali
     Enum, dict, frozenset.  Each branch narrows the value type with
     ``isinstance`` before performing type-specific operations.
     """
-    inner, _ = _is_optional_type(type_hint)
+    # ``Annotated[X | None, ...]`` carries its optional inside the annotation:
+    # unwrap on both sides of the optional check.
+    inner, _ = _is_optional_type(_unwrap_annotated(type_hint))
     base = _unwrap_annotated(inner)
     if isinstance(base, type) and issubclass(base, ArrowSerializableDataclass):
         if not isinstance(value, bytes):
